@@ -256,3 +256,14 @@ impl CurveVar<Element, Fq> for ElementVar {
         })
     }
 }
+
+/// Verification hook (compiled only with `--cfg decaf377_verif`): the affine coordinate variables
+/// behind an `ElementVar` (forces the lazily evaluated element), so that a test harness can read
+/// a gadget's output out of an arbitrary witness assignment.
+#[cfg(decaf377_verif)]
+impl ElementVar {
+    pub fn verif_affine_vars(&self) -> Result<(FqVar, FqVar), SynthesisError> {
+        let inner = self.inner.element()?;
+        Ok((inner.inner.x.clone(), inner.inner.y.clone()))
+    }
+}
